@@ -177,6 +177,7 @@ func (s *serviceImpl) Receive(m *net.Message, from Channel) error {
 	if !ok {
 		return from.SendError(m, ErrObjectNotFound)
 	}
+	vhook.Gate("service.receive.unlocked", "ep", vhook.ID(from.EndPoint()), "id", m.Header.ID, "service", m.Header.Service, "object", m.Header.Object)
 	box <- NewMail(m, from)
 	return nil
 }
@@ -188,6 +189,7 @@ func (s *serviceImpl) Terminate() error {
 	s.objects = make(map[uint32]Actor)
 	s.boxes = make(map[uint32]MailBox)
 	vhook.Emit("service", s, "terminate")
+	vhook.Emit("servicelife", s, "terminate", "service", s.serviceID, "n", len(objects))
 	s.Unlock()
 
 	for _, obj := range objects {
